@@ -775,14 +775,14 @@ func (r *vc08Run) exec(op *vc08Op) {
 			}
 			r.st.IncorrectStateDetected()
 			r.st.IncorrectStateDetected()
-			deadline := time.Now().Add(15 * time.Second)
+			deadline := time.Now().Add(6 * time.Second)
 			for {
 				x, _ := r.st.XOR(MaxLamportClock)
 				if x == want {
 					break
 				}
 				if time.Now().After(deadline) {
-					tag = "liveRepair:not-repaired-within-15s"
+					tag = "liveRepair:not-repaired-within-6s"
 					break
 				}
 				time.Sleep(time.Millisecond)
